@@ -2,6 +2,7 @@ CONSTANTS NP = 3
  NT = 2
  NF = 0
  NA = 2
+ NC = 0
  Light = FALSE
 INIT InitGen
 NEXT EvalGen
